@@ -53,6 +53,8 @@ def cases(tier, seed):
             "scale": float(rng.choice([1.0, 0.5, 1.7])), "iseed": int(rng.integers(0, 2**31)),
             "divisible": bool(rng.random() < 0.4),
             "tdtype": ("float32", "float32", "uint8", "int16", "uint16")[int(rng.integers(0, 5))],
+            "layout": ("c", "c", "crop", "fortran", "transposed")[int(rng.integers(0, 5))],
+            "corner_safe": bool(rng.random() < 0.4),
         })
     return out
 
@@ -80,6 +82,19 @@ def run(case):
             info = np.iinfo(p["tdtype"])
             A = rng.integers(int(info.max * 0.6), int(info.max), size=tshape).astype(p["tdtype"])
             case.count("integer_tomograms")
+        lay = p.get("layout", "c")
+        if lay != "c" and not p["dask"]:
+            # the same values in another memory layout (a cropped view of a larger volume, a Fortran-ordered array,
+            # a transposed view)
+            if lay == "crop":
+                big_ = np.zeros(tuple(s_ + 3 for s_ in A.shape), A.dtype)
+                big_[1:-2, 2:-1, 1:-2] = A
+                A = big_[1:-2, 2:-1, 1:-2]
+            elif lay == "fortran":
+                A = np.asfortranarray(A)
+            else:
+                A = np.ascontiguousarray(A.transpose(2, 0, 1)).transpose(1, 2, 0)
+            case.count("non_c_contiguous_tomograms")
         tomos.append(A)
         # molecule centres: binned-voxel box aligned with the binned grid.
         # binned voxel j covers original voxels [j*b, (j+1)*b); its centre is j*b + (b-1)/2.
@@ -101,11 +116,12 @@ def run(case):
             else A for A in tomos]
 
     if p["kind"] == "single":
-        loader = SubtomogramLoader(imgs[0], moles[0], order=order, scale=scale, output_shape=(S,) * 3)
+        loader = SubtomogramLoader(imgs[0], moles[0], order=order, scale=scale, output_shape=(S,) * 3,
+                                   corner_safe=p.get("corner_safe", False))
         binned = loader.binning(b, compute=p["compute"])
         b_images = [binned.image]
     else:
-        loader = BatchLoader(order=order, scale=scale, output_shape=(S,) * 3)
+        loader = BatchLoader(order=order, scale=scale, output_shape=(S,) * 3, corner_safe=p.get("corner_safe", False))
         for im, mo in zip(imgs, moles):
             loader.add_tomogram(im, mo)
         try:
@@ -119,6 +135,11 @@ def run(case):
         case.nontrivial(p["iseed"])
 
     case.check(abs(binned.scale - scale * b) < 1e-9, "scale not multiplied by the bin size", got=binned.scale)
+    case.check(binned.order == loader.order and binned.corner_safe == loader.corner_safe and
+               tuple(binned.output_shape) == tuple(loader.output_shape),
+               "binned loader does not keep the loader options (order, corner_safe, output_shape)", None,
+               got=(binned.order, binned.corner_safe, binned.output_shape),
+               want=(loader.order, loader.corner_safe, loader.output_shape))
     src_pos = np.concatenate([m.pos for m in moles])
     src_q = np.concatenate([m.quaternion() for m in moles])
     want_pos = src_pos - (b - 1) / 2 * scale
